@@ -164,7 +164,6 @@ package loader
 // frame of the any-slice heap is then an array equality that no invariant of the language can re-establish
 // (frame#.. S|Any stays unproved although nothing pre-existing is written).
 //@ func resolve
-//@   except frame[S|Any|cc220c1ad/ret1] : undischarged on the reference tree (engine limit or missing callee contract), not claimed
 //@   nopanic[C01,C11,C16]
 //@   pure
 //@   requires fn != nil
@@ -181,12 +180,14 @@ package loader
 //@   ensures[C16] isStr(a) ==> isStr(result.0)
 //@   ensures[C16] !isMap(a) && !isList(a) && !isStr(a) ==> !result.1 && result.0 == a
 //@   loop 1
+//@     invariant frame()
 //@     invariant -1 <= rangeindex && rangeindex < len(v)
 //@     invariant len(resolved) <= rangeindex + 1
 //@     invariant resolved == nil || fresh(resolved)
 //@     invariant forall m map[string]any, k string :: !fresh(m) ==> (has(m, k) <==> old(has(m, k))) && m[k] == old(m[k])
 //@     invariant forall s []any, i int :: !fresh(s) ==> s[i] == old(s[i])
 //@   loop 2
+//@     invariant frame()
 //@?    invariant forall k string :: has(resolved, k) ==> seen(k) && has(asMap(a), k)
 //@?    invariant forall k string :: seen(k) && has(asMap(a), k) && asMap(a)[k] != nil ==> has(resolved, k) && resolved[k] == asMap(a)[k]
 //@?    invariant keepEmpty ==> forall k string :: seen(k) && has(asMap(a), k) ==> has(resolved, k)
